@@ -307,7 +307,7 @@ struct DataObj {
   std::set<std::string> returned;       // strings successful calls returned from this object
   // C17 model
   int key_state = 0;                    // 0 unset, 1 known, 2 erased by a hashing call, 3 overwritten by the application
-  bool input_tainted = false, setting_tainted = false;   // the caller itself put a phrase/setting there
+  bool input_tainted = false, setting_tainted = false, output_tainted = false;   // the caller itself put a phrase/setting there
   unsigned char key[8];
 };
 struct Slot {
@@ -368,15 +368,16 @@ static Slot *slot_of(Run &r, const void *p) {
 // release hook: memory leaves the library's hands *now*
 static void on_release(int task, const void *p, size_t size, ReqKind how, const Block &b) {
   Run &r = *g_run;
-  if (how == RQ_REALLOC) {
-    // C09-4 / C14: an undersized crypt_ra block must be erased over its recorded size before it is reallocated
+  if (how == RQ_REALLOC || how == RQ_FREE) {
+    // C09-4 / C14: an undersized crypt_ra block must be erased over its recorded size before the library lets go of
+    // it, whether it grows it with realloc or replaces it with malloc + free
     Slot *s = slot_of(r, p);
     if (s && s->size > 0 && (r.o_c09 || r.o_c14)) {
       size_t n = std::min((size_t)s->size, size);
       stat("probe_growth_from_small_block");
       if (!all_zero(p, n))
         violation(nullptr, "growth-not-erased", task, cur_op(task),
-                  vfmt("crypt_ra handed a %zu-byte block (recorded size %d) to realloc without erasing it first", size, s->size));
+                  vfmt("crypt_ra handed a %zu-byte block (recorded size %d) to %s without erasing it first", size, s->size, how == RQ_FREE ? "free" : "realloc"));
     }
   }
   if (r.o_c09 && r.cur_pat && r.cur_pat_task == task && !b.from_harness) {
@@ -590,6 +591,13 @@ static void exec_hash(Run &r, int t, int i, const J &op) {
   if (op.has("phs") && (size_t)op.i("phs") < r.shared.size()) { c.phrase = Bytes(r.shared[(size_t)op.i("phs")]); php = r.shared[(size_t)op.i("phs")].c_str(); stat("probe_shared_readonly_input"); }
   if (op.has("sts") && (size_t)op.i("sts") < r.shared.size()) { c.setting = Bytes(r.shared[(size_t)op.i("sts")]); stp = r.shared[(size_t)op.i("sts")].c_str(); stat("probe_shared_readonly_input"); }
   std::string stsrc = op.str("stsrc", "lit");
+  bool phrase_in_output = false;
+  if (op.i("phout") && obj && cd && full_object && !c.phrase.null && c.phrase.b.size() < sizeof cd->output && stsrc != "out") {
+    // the caller keeps the passphrase in the object's output field and passes a pointer to it.  Nothing is promised
+    // about the result (today the up-front failure token overwrites its first bytes), so no result is expected -
+    // but failures stay fail-closed and the erasure rules hold: the library must not park copies elsewhere in the object.
+    memcpy(cd->output, c.phrase.b.c_str(), c.phrase.b.size() + 1); php = cd->output; phrase_in_output = true; obj->output_tainted = true; stat("probe_phrase_aliases_output");
+  }
   bool aliased = false;
   if (stsrc == "out") {
     // the setting is the object's own output field (what `crypt (pw, crypt (other, salt))` does with the static object).
@@ -699,7 +707,9 @@ static void exec_hash(Run &r, int t, int i, const J &op) {
   }
   bool exp_fail = must_fail || !exp.ok;
 
-  if (r.o_ref || r.o_c05 || r.o_c15) {
+  if (phrase_in_output) {
+    stat(c.failed ? "phrase_in_output_call_failed" : "phrase_in_output_call_succeeded");
+  } else if (r.o_ref || r.o_c05 || r.o_c15) {
     if (aliased && c.failed && !exp_fail) {
       stat("aliased_setting_call_failed_closed");     // legal: see above
     } else if (exp_fail != c.failed) {
@@ -745,7 +755,7 @@ static void exec_hash(Run &r, int t, int i, const J &op) {
     if (cd && full_object) {
       // everything but what the caller put into input/setting
       struct Rg { const char *p; size_t n; const char *name; } rg[] = {
-          {cd->output, sizeof cd->output, "output"}, {cd->setting, (obj && obj->setting_tainted) || stp == cd->setting ? 0 : sizeof cd->setting, "setting"},
+          {cd->output, phrase_in_output || (obj && obj->output_tainted) ? 0 : sizeof cd->output, "output"}, {cd->setting, (obj && obj->setting_tainted) || stp == cd->setting ? 0 : sizeof cd->setting, "setting"},
           {cd->input, (obj && obj->input_tainted) || php == cd->input ? 0 : sizeof cd->input, "input"},
           {cd->reserved, sizeof cd->reserved + 1 + sizeof cd->internal, "reserved/initialized/internal"}};
       for (auto &g : rg) if (g.n && (enc = pat.scan(g.p, g.n, &off))) {
@@ -1092,7 +1102,7 @@ static void exec_scribble(Run &r, int t, int i, const J &op) {
   DataObj &o = r.tc[t].objs.at((size_t)op.i("obj"));
   std::string what = op.str("what", "garbage");
   if (what == "zero") memset(o.cd, 0, CD); else garbage_fill(o.cd, CD, (uint64_t)op.i("gseed") + 11);
-  o.state = "scribbled"; o.key_state = what == "zero" ? (o.key_state ? 2 : 0) : 3; o.input_tainted = o.setting_tainted = false;
+  o.state = "scribbled"; o.key_state = what == "zero" ? (o.key_state ? 2 : 0) : 3; o.input_tainted = o.setting_tainted = o.output_tainted = false;
   sig_add(r, "scribble:" + what);
   ev(vfmt("scribble t%d op%d obj=%lld %s", t, i, (long long)op.i("obj"), what.c_str()));
   stat("op_scribble");
